@@ -1596,6 +1596,11 @@ class t2data(object):
                     self._sections.append(keyword)
             else: more = False
         infile.close()
+        if self.extra_precision:
+            # extra precision sections present in the main file have been echoed there:
+            self._echo_extra_precision = any([section in self._sections for
+                                              section in self.extra_precision])
+            self.update_read_write_functions()
         if meshfilename and (self.grid.num_blocks == 0):
             self.meshfilename = meshfilename
             if isinstance(meshfilename, str):
